@@ -74,6 +74,10 @@ def inputs(rng, tier):
         both_orders("equator", rng.uniform(-0.01, 0.01), rng.uniform(-180, 180))
         both_orders("anti", rng.uniform(-89, 89), rng.choice((-1, 1)) * rng.uniform(179.99, 180) % 360 - (360 if rng.random() < 0.5 else 0))
         both_orders("meridian", rng.uniform(-89, 89), rng.uniform(-0.01, 0.01))
+        # one report just north of the equator, the other just south of it (either parity on either side)
+        lon = rng.uniform(-180, 180)
+        both_orders("eqcross", rng.uniform(0.00005, 0.04), lon, -rng.uniform(0.00005, 0.04), lon)
+        both_orders("eqcross", -rng.uniform(0.00005, 0.04), lon, rng.uniform(0.00005, 0.04), lon)
     # across a pole: one report's latitude decodes just beyond +-90 (no such place), the other's just inside; either order,
     # either report the latest one - the pair cannot stem from one location
     for _ in range(q(300, 6000)):
